@@ -22,6 +22,7 @@ ASSUMPTIONS = c01.ASSUMPTIONS[:2] + [
 MIN_EVALUATIONS = {"quick": 2000, "thorough": 50000}
 
 CMP = ["==", "!=", "<", "<=", ">", ">="]
+BITS = {}
 
 
 def plan(tier, seed):
@@ -45,8 +46,9 @@ def gen_atom(rng, places, bitplaces, nested):
     if bitplaces and r < 0.15:
         bp = rng.choice(bitplaces)
         if rng.random() < 0.3:
-            return ["not", ["bit", bp]] if nested or rng.random() < 0.5 \
-                else ["not", ["bit", bp]]
+            if BITS.get(bp) == 1:
+                return ["not", ["bit", bp]]     # ~field: 1-bit fields only
+            return ["not", ["cmp", "!=", ["p", bp], ["c", 0]]]
         return ["bit", bp]
     if r < 0.3:
         # bit test x & mask
@@ -91,8 +93,8 @@ def normalise(c, top=True):
         return [k, normalise(c[1], False), normalise(c[2], False)]
     if k == "not":
         inner = c[1]
-        if inner[0] == "bit":
-            return ["not", inner]      # ~bitfield is supported directly
+        if inner[0] == "bit" and BITS.get(inner[1]) == 1:
+            return ["not", inner]      # ~bitfield: 1-bit fields only
         return ["not", normalise(inner, False)]
     if not top:
         if k == "truth":
@@ -131,6 +133,8 @@ def gen_case(rng, depth):
     locs = locs + bitlocs
     places = gen.places_of(regs, vars_, [l for l in locs if l not in bitlocs])
     bitplaces = [f"l:{n}" for n, _ in bitlocs]
+    BITS.clear()
+    BITS.update({f"l:{n}": f[1] for n, f in bitlocs})
     wplaces = [p for p in places if p[0] != "r"] or places
     stmts = gen_block(rng, places, bitplaces, wplaces, depth, 3)
     if not any(s[0] == "if" for s in stmts):
